@@ -9,10 +9,16 @@
        one sample per context row, read out as sum(x * sample) row by row - for every d and m.
      * REFUTED (finding D2): with the initialisation of the code, A_inv of an arm never observed is lambda*I,
        not I/lambda - witness lambda = 4 over the rationals.
+     * WHOLE HISTORIES (scale=False, exact arithmetic: the ring laws NumLaws, satisfied by the rationals): after
+       fit(D0), partial_fit(D1), ..., partial_fit(Dk), all accepted, every arm's regression has
+       A = lambda*I + X'X, X'y, A_inv = inv(A), beta = A_inv.X'y for X / y the rows / rewards of that arm in
+       D0 ++ ... ++ Dk; an arm with no rows keeps the initial state; any two ways of splitting the same per-arm rows
+       among the calls give the same regression (lin_split_irrelevant).  At binary64 the split changes only the
+       order of the floating-point additions (compared by the correspondence run with rtol 1e-7).
     ..._partial: that the Gauss-Jordan result is the two-sided inverse, and the limit alpha -> 0 of the LinTS
     draw, are not proved (the first is validated by the ridge oracle numpy.linalg.solve on every run). *)
 From Coq Require Import List ZArith Bool Arith QArith Qcanon Permutation.
-From MW Require Import Num Assoc AssocFacts Rng Par CF CFInv CFClean CFForget CFSpec Matrix Lin Warm WarmInv Nbr NbrFacts NbrIndep LshFacts Clu Tree CellFacts Mab FacadeCF FacadeArms MoreFacts NumLaws CFAlg Sim Extra QcInst.
+From MW Require Import Num Assoc AssocFacts Rng Par CF CFInv CFClean CFForget CFSpec Matrix Lin Warm WarmInv Nbr NbrFacts NbrIndep LshFacts Clu Tree CellFacts Mab FacadeCF FacadeArms MoreFacts NumLaws CFAlg Sim Extra QcInst OrderFacts ExpIrrel LinInv FacadeLin LpInv NbrInv CluTreeInv FacadeAll ToyFacts C09All C10All LinForget LinSim MatrixFacts LinSpec.
 Import ListNotations.
 
 Theorem C02_init_state :
@@ -37,6 +43,80 @@ Theorem C02_fit_accumulates_normal_equations_partial :
   inverse N d (r_A m') = Some (r_Ainv m') /\ r_beta m' = mat_vec N (r_Ainv m') (r_Xty m').
 Proof. exact @ridge_fit_normal_equations. Qed.
 Print Assumptions C02_fit_accumulates_normal_equations_partial.
+
+Theorem C02_history_feeds_each_arm_its_own_rows :
+  forall (R A G : Type) (N : Num R) (aeqb : A -> A -> bool),
+  (forall x y : A, aeqb x y = true <-> x = y) ->
+  forall (s0 : (@lin R A G)) (g : G) (d0 : list A) (rs0 : list R) (cx0 : (@mat R)) (h : list batch) (a : A),
+  lin_keys_ok s0 ->
+  In a (l_arms s0) ->
+  snd (lin_fit N aeqb s0 g d0 rs0 cx0) = true ->
+  snd (lin_partials N aeqb (fst (lin_fit N aeqb s0 g d0 rs0 cx0)) g h) = true ->
+  let d := ncols cx0 in
+  let sk := fst (lin_partials N aeqb (fst (lin_fit N aeqb s0 g d0 rs0 cx0)) g h) in
+  exists m' : (@ridge R G),
+    ridge_fits N d (ridge_init N (set_lnf s0 (Some d)) d (model aeqb s0 a))
+      (arm_batches aeqb a ((d0, rs0, cx0) :: h)) = Some m' /\ erase_rng (model aeqb sk a) = erase_rng m'.
+Proof. exact @lin_history_models. Qed.
+Print Assumptions C02_history_feeds_each_arm_its_own_rows.
+
+Theorem C02_history_normal_equations :
+  forall (R A G : Type) (N : Num R),
+  NumLaws N ->
+  forall aeqb : A -> A -> bool,
+  (forall x y : A, aeqb x y = true <-> x = y) ->
+  forall (s0 : (@lin R A G)) (g : G) (d0 : list A) (rs0 : list R) (cx0 : (@mat R)) (h : list batch) (a : A),
+  lin_keys_ok s0 ->
+  In a (l_arms s0) ->
+  l_scale s0 = false ->
+  snd (lin_fit N aeqb s0 g d0 rs0 cx0) = true ->
+  snd (lin_partials N aeqb (fst (lin_fit N aeqb s0 g d0 rs0 cx0)) g h) = true ->
+  let d := ncols cx0 in
+  let mk := model aeqb (fst (lin_partials N aeqb (fst (lin_fit N aeqb s0 g d0 rs0 cx0)) g h)) a in
+  let bs := arm_batches aeqb a ((d0, rs0, cx0) :: h) in
+  let X := concat (map fst bs) in
+  let y := concat (map snd bs) in
+  (bs = [] -> erase_rng mk = erase_rng (ridge_init N (set_lnf s0 (Some d)) d (model aeqb s0 a))) /\
+  (bs <> [] ->
+   r_A mk = madd N (mscale N (l_l2 s0) (identity N d)) (xtx N d X) /\
+   r_Xty mk = vadd N (zeros N d) (xty N d X y) /\
+   inverse N d (r_A mk) = Some (r_Ainv mk) /\ r_beta mk = mat_vec N (r_Ainv mk) (r_Xty mk)).
+Proof. exact @lin_history_normal_equations. Qed.
+Print Assumptions C02_history_normal_equations.
+
+Theorem C02_split_into_fit_and_partial_fit_is_irrelevant :
+  forall (R A G : Type) (N : Num R),
+  NumLaws N ->
+  forall aeqb : A -> A -> bool,
+  (forall x y : A, aeqb x y = true <-> x = y) ->
+  forall (s0 : (@lin R A G)) (g g' : G) (d0 : list A) (rs0 : list R) (cx0 : (@mat R)) (h : list batch) 
+    (d0' : list A) (rs0' : list R) (cx0' : (@mat R)) (h' : list batch) (a : A),
+  lin_keys_ok s0 ->
+  In a (l_arms s0) ->
+  l_scale s0 = false ->
+  snd (lin_fit N aeqb s0 g d0 rs0 cx0) = true ->
+  snd (lin_partials N aeqb (fst (lin_fit N aeqb s0 g d0 rs0 cx0)) g h) = true ->
+  snd (lin_fit N aeqb s0 g' d0' rs0' cx0') = true ->
+  snd (lin_partials N aeqb (fst (lin_fit N aeqb s0 g' d0' rs0' cx0')) g' h') = true ->
+  ncols cx0 = ncols cx0' ->
+  let bs := arm_batches aeqb a ((d0, rs0, cx0) :: h) in
+  let bs' := arm_batches aeqb a ((d0', rs0', cx0') :: h') in
+  bs <> [] ->
+  bs' <> [] ->
+  concat (map fst bs) = concat (map fst bs') ->
+  concat (map snd bs) = concat (map snd bs') ->
+  let mk := model aeqb (fst (lin_partials N aeqb (fst (lin_fit N aeqb s0 g d0 rs0 cx0)) g h)) a in
+  let mk' := model aeqb (fst (lin_partials N aeqb (fst (lin_fit N aeqb s0 g' d0' rs0' cx0')) g' h')) a
+    in
+  r_A mk = r_A mk' /\ r_Xty mk = r_Xty mk' /\ r_Ainv mk = r_Ainv mk' /\ r_beta mk = r_beta mk'.
+Proof. exact @lin_split_irrelevant. Qed.
+Print Assumptions C02_split_into_fit_and_partial_fit_is_irrelevant.
+
+Theorem C02_gram_matrix_additive_over_row_blocks :
+  forall (R : Type) (N : Num R),
+  NumLaws N -> forall (d : nat) (x1 x2 : (@mat R)), xtx N d (x1 ++ x2) = madd N (xtx N d x1) (xtx N d x2).
+Proof. exact @xtx_app. Qed.
+Print Assumptions C02_gram_matrix_additive_over_row_blocks.
 
 Theorem C02_lingreedy_expectation :
   forall (R A G : Type) (N : Num R) (RG : RngOps R G) (s : (@lin R A G)) (m : (@ridge R G)) (g : G) (x : (@mat R)),
@@ -84,4 +164,19 @@ Theorem C02_unobserved_arm_covariance_refuted :
   r_Ainv (ridge_init QcNum (ex_lin true) 1 ridge_new) = [[q 4]].
 Proof. split; [vm_compute; discriminate | vm_compute; reflexivity]. Qed.
 Print Assumptions C02_unobserved_arm_covariance_refuted.
+
+(* non-vacuity of the whole-history theorem: a concrete LinUCB history over the rationals is accepted call by call *)
+Definition exh_s0 : @lin Qc Z nat := lin_init QcNum RUcb (q 1) (q 0) (q 2) false false [1; 2]%Z.
+Definition exh_d0 := [1; 2; 1]%Z.  Definition exh_r0 := [q 1; q 0; q 2].  Definition exh_c0 := [[q 1; q 0]; [q 0; q 1]; [q 1; q 1]].
+Definition exh_h : list (list Z * list Qc * list (list Qc)) := [([2]%Z, [q 3], [[q 2; q 1]]); ([1; 1]%Z, [q 1; q 1], [[q 0; q 2]; [q 3; q 1]])].
+Example C02_history_hypotheses_satisfiable :
+  lin_keys_ok exh_s0 /\ In 1%Z (l_arms exh_s0) /\ l_scale exh_s0 = false /\
+  snd (lin_fit QcNum Z.eqb exh_s0 0%nat exh_d0 exh_r0 exh_c0) = true /\
+  snd (lin_partials QcNum Z.eqb (fst (lin_fit QcNum Z.eqb exh_s0 0%nat exh_d0 exh_r0 exh_c0)) 0%nat exh_h) = true /\
+  arm_batches Z.eqb 1%Z ((exh_d0, exh_r0, exh_c0) :: exh_h) <> [].
+Proof.
+  split; [apply lin_keys_ok_init; repeat constructor; simpl; intuition discriminate|].
+  split; [left; reflexivity|]. split; [reflexivity|]. split; [vm_compute; reflexivity|]. split; [vm_compute; reflexivity|].
+  vm_compute. discriminate.
+Qed.
 
